@@ -1,3 +1,5 @@
+use std::cmp;
+
 use crate::{
     model::mode::ConvertError,
     taiko::{difficulty::gradual::TaikoGradualDifficulty, TaikoScoreState},
@@ -108,6 +110,9 @@ impl TaikoGradualPerformance {
     /// `n=1` will process 2, and so on.
     #[allow(clippy::missing_panics_doc, reason = "technically false positive")]
     pub fn nth(&mut self, state: TaikoScoreState, n: usize) -> Option<TaikoPerformanceAttributes> {
+        // Process at most all remaining objects
+        let n = cmp::min(n, self.difficulty.len().saturating_sub(1));
+
         let performance = self
             .difficulty
             .nth(n)?
